@@ -382,10 +382,10 @@ class Sym:
         if e.id in self.eager:
             return self.eager[e.id]
         if at is None:
-            return Poly.atom(e.id)
+            return self._global(e.id, depth) if e.id in self.f.module.constants and e.id not in self.f.params else Poly.atom(e.id)
         defs = self.rd.reaching(e.id, at)
         if not defs:
-            return Poly.atom(e.id)     # global / builtin / import
+            return self._global(e.id, depth)     # global / builtin / import
         if len(defs) == 1:
             d = defs[0]
             if d.kind == "param":
@@ -421,6 +421,14 @@ class Sym:
             return Poly.atom(f"{e.id}@{d.kind}")
         kinds = sorted({d.kind for d in defs})
         return Poly.atom(f"phi({e.id}:{len(defs)}:{'/'.join(kinds)})")
+
+    def _global(self, name: str, depth: int) -> Poly:
+        """Module-level numeric constants are folded (e.g. SECONDS_IN_YEAR)."""
+        v = self.f.module.constants.get(name)
+        if v is not None and depth < self.max_depth and all(isinstance(n, (ast.Constant, ast.BinOp, ast.UnaryOp, ast.operator, ast.unaryop)) for n in ast.walk(v)) \
+                and all(isinstance(n.value, (int, float)) and not isinstance(n.value, bool) for n in ast.walk(v) if isinstance(n, ast.Constant)):
+            return self.ev(v, None, depth + 1)
+        return Poly.atom(name)
 
     def _binop(self, op, l: Poly, r: Poly) -> Poly:
         if isinstance(op, ast.Add):
